@@ -816,6 +816,44 @@ package router
 //@   callsite handleReq: [C03:this-query] arg0 == s && arg1 == m && arg2 == rc
 //@   callsite ReleaseMsg: [C20:released-after-the-answer] nH == 1 && arg0 == m
 
+// ---- server_http_gohttp.go (DoH): admission before anything else is done for the request ----------------------
+//@ func (h *httpHandler) readReqMsg(w http.ResponseWriter, req *http.Request) (m *dnsmsg.Msg)
+//@   trusted
+//@   requires h != nil && w != nil && req != nil
+//@   modifies nothing
+//@   ensures m != nil ==> fresh(m) && wfMsg(m) && !attr(released, m)
+
+// ServeHTTP: a request refused by the limiter gets status 503 and nothing else: its body is not read, no query
+// is decoded or handled, nothing is forwarded. An admitted request is handled at most once and gets at most one
+// body. The cost (2) is charged to the client address the handler determined.
+//@ func (h *httpHandler) ServeHTTP(w http.ResponseWriter, req *http.Request)
+//@   props C15 C03 C20
+//@   requires h != nil && routerReady(h.r) && h.logger != nil && w != nil && req != nil && req.URL != nil
+//@   ghost gAdm error = nil
+//@   ghost nAsk int = 0
+//@   ghost nHdr int = 0
+//@   ghost gCode int = 0
+//@   ghost nRd int = 0
+//@   ghost nH int = 0
+//@   ghost nW int = 0
+//@   ghost gB pool.Buffer = nil
+//@   oncall limiterAllowN?: nAsk = nAsk + 1
+//@   aftercall limiterAllowN?: gAdm = ret0
+//@   oncall WriteHeader?: nHdr = nHdr + 1
+//@   oncall WriteHeader?: gCode = arg1
+//@   oncall readReqMsg?: nRd = nRd + 1
+//@   oncall handleServerReq?: nH = nH + 1
+//@   oncall Write?: nW = nW + 1
+//@   aftercall mustHaveRespB?: gB = ret0
+//@   modifies *
+//@   ensures [C15:refused-request-gets-503-and-nothing-else] nAsk == 1 && gAdm != nil ==> nHdr == 1 && gCode == 503 && nRd == 0 && nH == 0 && nW == 0
+//@   ensures [C03:at-most-one-answer] nAsk <= 1 && nH <= 1 && nW <= nH && (nH == 1 ==> nW == 1)
+//@   callsite limiterAllowN?: [C15:query-cost-charged-to-the-client] arg0 == h.r && arg1 == remoteAddr.ip && arg2 == 2
+//@   callsite readReqMsg?: [C15:only-admitted-requests-are-read] nAsk == 1 && gAdm == nil
+//@   callsite handleServerReq?: [C15:only-admitted-requests-are-handled] nAsk == 1 && gAdm == nil && arg0 == h.r
+//@   callsite mustHaveRespB?: [C03:fallback-answer] arg2 == dnsmsg.RCodeRefused && arg3 == false && arg4 == 65535
+//@   callsite Write?: [C03:the-packed-response-is-the-body] arg1 == gB && len(arg1) >= 12
+
 // tcpServer.run (accept loop, TCP and DoT): every accepted connection is charged - 15 for TLS, 3 for plain TCP -
 // to its remote address; a refused connection is closed and never handled.
 //@ func (s *tcpServer) run() (err error)
